@@ -549,3 +549,111 @@ T('g14g_neutral_decorators', ['C14'],
    "        raise Forbidden(is_breaking=False)\n\n\n" + _BFR_DEF),
   (ST, "        try:\n            mtime = get_file_mtime(path)\n        except (ValueError, IOError, OSError):  # TODO: winnow this down\n            raise Forbidden(is_breaking=False)\n",
        "        with _as_forbidden():\n            mtime = get_file_mtime(path)\n"))
+
+# ------------------------------------------------------------------ R14.b: helpers the endpoints call keep the non-breaking discipline
+B('g14b_public_lookup_method_breaking', ['C14'], 'R14.b',
+  (ST, "    def get_file_response(self, path, request):\n        try:\n",
+       "    def locate(self, path):\n"
+       "        if not isinstance(path, (str, bytes)):\n"
+       "            path = '/'.join(path)\n"
+       "        full_path = find_file(self.search_paths, path)\n"
+       "        if full_path is None:\n"
+       "            raise NotFound()\n"
+       "        return full_path\n\n"
+       "    def get_file_response(self, path, request):\n        try:\n"),
+  (ST, "            if not isinstance(path, (str, bytes)):\n                path = '/'.join(path)\n            full_path = find_file(self.search_paths, path)\n"
+       "            if full_path is None:\n                raise NotFound(is_breaking=False)\n",
+       "            full_path = self.locate(path)\n"))
+B('g14b_public_function_breaking', ['C14'], 'R14.b',
+  (ST, _BFR_DEF, "def ensure_regular_file(path):\n    if not isfile(path):\n        raise NotFound()\n    return path\n\n\n" + _BFR_DEF),
+  (ST, "    if not isfile(path):\n        raise NotFound(is_breaking=False)\n    try:\n        file_obj = open(path, 'rb')\n",
+       "    if not isfile(path):\n        raise NotFound(is_breaking=False)\n    ensure_regular_file(path)\n    try:\n        file_obj = open(path, 'rb')\n"))
+
+# ------------------------------------------------------------------ R14.h: test, open, size and type guess speak about the one served path
+_OPEN_LINE = "        file_obj = open(path, 'rb')\n"
+_SIZE_LINE = "        fsize = os.path.getsize(path)\n"
+T('g14h_mode_constant_and_copy', ['C14'],
+  (ST, "IS_WINDOWS = sys.platform == 'win32'\n", "IS_WINDOWS = sys.platform == 'win32'\n_READ_BYTES = 'rb'\n"),
+  (ST, _OPEN_LINE, "        served = path\n        file_obj = open(served, mode=_READ_BYTES)\n"),
+  (ST, _SIZE_LINE, "        fsize = os.path.getsize(served)\n"))
+B('g14h_text_mode', ['C14'], 'R14.h', (ST, _OPEN_LINE, "        file_obj = open(path)\n"))
+B('g14h_text_mode_constant', ['C14'], 'R14.h',
+  (ST, "IS_WINDOWS = sys.platform == 'win32'\n", "IS_WINDOWS = sys.platform == 'win32'\n_READ_MODE = 'r'\n"),
+  (ST, _OPEN_LINE, "        file_obj = open(path, _READ_MODE)\n"))
+B('g14h_opened_for_update', ['C14'], 'R14.h', (ST, _OPEN_LINE, "        file_obj = open(path, 'r+b')\n"))
+B('g14h_size_of_sibling', ['C14'], 'R14.h',
+  (ST, _SIZE_LINE, "        packed = path + '.gz'\n        fsize = os.path.getsize(packed if isfile(packed) else path)\n"))
+B('g14h_opens_sibling', ['C14'], 'R14.h',
+  (ST, _OPEN_LINE, "        source = path\n        if isfile(path + '.gz'):\n            source = path + '.gz'\n        file_obj = open(source, 'rb')\n"))
+B('g14h_fallback_path_rebound', ['C14'], 'R14.h',
+  (ST, "    if not isfile(path):\n        raise NotFound(is_breaking=False)\n",
+       "    if not isfile(path):\n        path = path + '.html'\n    if not isfile(path):\n        raise NotFound(is_breaking=False)\n"))
+
+# ------------------------------------------------------------------ R14.i: first search directory wins
+_APP_STORE = "        self.search_paths = search_paths\n"
+T('g14i_copies_keep_order', ['C14'],
+  (ST, _APP_STORE, "        self.search_paths = list(search_paths)\n"),
+  (ST, "    for sr in search_paths:\n", "    roots = tuple(search_paths)\n    for sr in roots:\n"))
+T('g14i_found_then_break', ['C14'],
+  (ST, _LOOP,
+   "    found = None\n"
+   "    for sr in search_paths:\n"
+   "        full_path = pjoin(sr, rel_path)\n"
+   "        if isfile(full_path):\n"
+   "            found = full_path\n"
+   "            break\n"
+   "    return found\n"))
+B('g14i_reversed_loop', ['C14'], 'R14.i', (ST, "    for sr in search_paths:\n", "    for sr in reversed(search_paths):\n"))
+B('g14i_sorted_on_app', ['C14'], 'R14.i', (ST, _APP_STORE, "        self.search_paths = sorted(search_paths)\n"))
+B('g14i_set_dedup_on_app', ['C14'], 'R14.i', (ST, _APP_STORE, "        unique = set(search_paths)\n        self.search_paths = list(unique)\n"))
+B('g14i_last_match_wins', ['C14'], 'R14.i',
+  (ST, _LOOP,
+   "    found = None\n"
+   "    for sr in search_paths:\n"
+   "        full_path = pjoin(sr, rel_path)\n"
+   "        if isfile(full_path):\n"
+   "            found = full_path\n"
+   "    return found\n"))
+B('g14i_next_over_backwards_slice', ['C14'], 'R14.i',
+  (ST, _LOOP, "    candidates = (pjoin(sr, rel_path) for sr in search_paths[::-1])\n    return next((c for c in candidates if isfile(c)), None)\n"))
+
+# ------------------------------------------------------------------ R14.j: a 304 carries no body
+_RESP_NEW = "    resp = response_type('')\n"
+_S304 = "            resp.status_code = 304\n"
+T('g14j_empty_body_spellings', ['C14'],
+  (ST, "IS_WINDOWS = sys.platform == 'win32'\n", "IS_WINDOWS = sys.platform == 'win32'\n_NO_BODY = ''\n"),
+  (ST, _RESP_NEW, "    resp = response_type(response=_NO_BODY)\n"))
+B('g14j_created_with_text', ['C14'], 'R14.j', (ST, _RESP_NEW, "    resp = response_type('Not Modified')\n"))
+B('g14j_data_on_304', ['C14'], 'R14.j', (ST, _S304, _S304 + "            resp.data = 'not modified since %s' % mtime\n"))
+B('g14j_set_data_before_branch', ['C14'], 'R14.j',
+  (ST, "        resp.cache_control.public = True\n", "        resp.cache_control.public = True\n        resp.set_data(b'unchanged')\n"))
+B('g14j_returns_other_object', ['C14'], 'R14.j',
+  (ST, _S304 + "            resp.cache_control.max_age = cache_timeout\n            return resp\n",
+       _S304 + "            resp.cache_control.max_age = cache_timeout\n            return response_type(open(path, 'rb').read())\n"))
+B('g14a_found_then_break_exists', ['C14'], 'R14.a',
+  (ST, _LOOP,
+   "    found = None\n"
+   "    for sr in search_paths:\n"
+   "        full_path = pjoin(sr, rel_path)\n"
+   "        if os.path.exists(full_path):\n"
+   "            found = full_path\n"
+   "            break\n"
+   "    return found\n"))
+
+# ------------------------------------------------------------------ R14.k: Last-Modified and the 304 decision are the same function of the file
+_MT_OPEN = "        mtime = get_file_mtime(path)\n        fsize = os.path.getsize(path)\n"
+_MT_COND = "            mtime = get_file_mtime(path)\n        except (ValueError, IOError, OSError):  # TODO"
+T('g14k_default_spelled_out', ['C14'],
+  (ST, _MT_OPEN, "        mtime = get_file_mtime(path, rounding=0)\n        fsize = os.path.getsize(path)\n"),
+  (ST, _MT_COND, "            mtime = get_file_mtime(path, 0)\n        except (ValueError, IOError, OSError):  # TODO"))
+T('g14k_same_constant_both_sides', ['C14'],
+  (ST, "IS_WINDOWS = sys.platform == 'win32'\n", "IS_WINDOWS = sys.platform == 'win32'\n_WHOLE_SECONDS = 0\n"),
+  (ST, _MT_OPEN, "        mtime = get_file_mtime(path, rounding=_WHOLE_SECONDS)\n        fsize = os.path.getsize(path)\n"),
+  (ST, _MT_COND, "            current = get_file_mtime(path, _WHOLE_SECONDS)\n            mtime = current\n        except (ValueError, IOError, OSError):  # TODO"))
+B('g14k_header_rounded_to_ten_seconds', ['C14'], 'R14.k',
+  (ST, _MT_OPEN, "        mtime = get_file_mtime(path, rounding=-1)\n        fsize = os.path.getsize(path)\n"))
+B('g14k_header_coarser_via_constant', ['C14'], 'R14.k',
+  (ST, "IS_WINDOWS = sys.platform == 'win32'\n", "IS_WINDOWS = sys.platform == 'win32'\n_HEADER_ROUNDING = -2\n"),
+  (ST, _MT_OPEN, "        granularity = _HEADER_ROUNDING\n        mtime = get_file_mtime(path, granularity)\n        fsize = os.path.getsize(path)\n"))
+B('g14k_comparison_coarser', ['C14'], 'R14.k',
+  (ST, _MT_COND, "            mtime = get_file_mtime(path, rounding=-1)\n        except (ValueError, IOError, OSError):  # TODO"))
